@@ -271,6 +271,7 @@ def nconcat (cfg : NCfg) (P : List Char → POut) (path : List Node) (b e : Nat)
   | none => .panic
   | some f =>
     if f.pos != cfg.numPos then .ok path
+    else if e < b then .panic                   -- `end - begin` (usize) is evaluated in both branches below
     else if cfg.enableNormalize then
       let nf := (P acc).norm
       if e - b > 1 || nf != normForm f then concatNodes path b e (some nf) else .ok path
@@ -598,9 +599,47 @@ def parseUnitTab (t : Option (List Char)) : Option (Option (List ((Nat × Nat ×
   | none => some none
   | some s => (Wire.allSome ((Wire.items '/' s).map parseUnits)).map some
 
+/-! ### outcome class of every plugin run (op `plug`: the plugins are called one by one on a path that need not
+come from the analyser, each call under `catch_unwind`) -/
+
+def classOf (o : Outcome (List Node)) : String :=
+  match o with
+  | .ok _ => "ok"
+  | .err => "err"
+  | .panic => "PANIC"
+  | .fuel => "HANG"
+
+/-- the plugin loop with the outcome class of every run; it stops at the first run that is not `ok`
+(`path = plugin.rewrite(..)?`).  The second component is `rewriteAll` (`Rewrite.rewriteTrace_snd`). -/
+def rewriteTrace (v : NVariant) (cat : List Nat) (P : List Char → POut) :
+    List Plugin → List Node → List String × Outcome (List Node)
+  | [], path => ([], .ok path)
+  | pl :: rest, path =>
+    match applyPlugin v cat P pl path with
+    | .ok p' =>
+      let r := rewriteTrace v cat P rest p'
+      ("ok" :: r.1, r.2)
+    | o => ([classOf o], o)
+
+/-- `C14 plug idx=.. trace=1 [nv=cur|fix] cat=<masks> plugins=<p;p..> path=<node;..> pq=<entry;..>`;
+answer `runs=<class,class..> <ok path | err | PANIC | HANG>` -/
+def handleTrace (toks : List (List Char)) : String :=
+  match Wire.kv? toks "cat", Wire.kv? toks "plugins", Wire.kv? toks "path", Wire.kv? toks "pq",
+        parseVariant (Wire.kv? toks "nv") with
+  | some c, some pl, some pa, some pq, some v =>
+    match Wire.natList? c, Wire.allSome ((Wire.items ';' pl).map parsePlugin),
+          Wire.allSome ((Wire.items ';' pa).map parseNode), Wire.allSome ((Wire.items ';' pq).map parsePq) with
+    | some cat, some plugins, some path, some tab =>
+      let r := rewriteTrace v cat (tableP tab) plugins path
+      "runs=" ++ Wire.joinWith "," r.1 ++ " " ++ showOutcome r.2
+    | _, _, _, _ => "bad-op"
+  | _, _, _, _, _ => "bad-op"
+
 /-- `C14 stack idx=.. [nv=cur|fix] cat=<masks> plugins=<p;p..> path=<node;..> pq=<entry;..>
-[ua=<units/..>] [ub=<units/..>]`; answer `ok <mode-C path>[ A=<mode-A path>][ B=<mode-B path>]` -/
+[ua=<units/..>] [ub=<units/..>]`; answer `ok <mode-C path>[ A=<mode-A path>][ B=<mode-B path>]`;
+with the token `trace=1`: `handleTrace` -/
 def handle (toks : List (List Char)) : String :=
+  if (Wire.kv? toks "trace").isSome then handleTrace toks else
   match Wire.kv? toks "cat", Wire.kv? toks "plugins", Wire.kv? toks "path", Wire.kv? toks "pq",
         parseVariant (Wire.kv? toks "nv") with
   | some c, some pl, some pa, some pq, some v =>
